@@ -328,6 +328,13 @@ func init() {
 		if ex.W.schedFull > 0 && ex.choose(2, nil, "scheduler-full") == 1 {
 			return &TupleV{vs: []Value{&IfaceV{}, ex.tt.Bool(false)}}
 		}
+		// a scheduler whose intake queue holds k coroutines: at most k admissions between two runs
+		if ex.W.schedCap > 0 {
+			if ex.W.schedAdmitted >= ex.W.schedCap {
+				return &TupleV{vs: []Value{&IfaceV{}, ex.tt.Bool(false)}}
+			}
+			ex.W.schedAdmitted++
+		}
 		ex.W.ncoro++
 		c := &CoroObj{id: ex.W.ncoro}
 		r := ex.callValue(nil, a[1], []Value{ex.coroValue(c)}, nil)
@@ -355,7 +362,10 @@ func init() {
 	intercepts[g+"New"] = func(ex *Exec, fr *Frame, a []Value, s ssa.Instruction) Value {
 		return &IfaceV{typ: ex.P.errorStringType(), v: &OpaqueV{kind: "gsched"}}
 	}
-	intercepts["opaque:gsched.RunUntilBlocked"] = func(ex *Exec, fr *Frame, a []Value, s ssa.Instruction) Value { return nil }
+	intercepts["opaque:gsched.RunUntilBlocked"] = func(ex *Exec, fr *Frame, a []Value, s ssa.Instruction) Value {
+		ex.W.schedAdmitted = 0
+		return nil
+	}
 	intercepts["opaque:gsched.Shutdown"] = func(ex *Exec, fr *Frame, a []Value, s ssa.Instruction) Value { return nil }
 	intercepts["opaque:gsched.Size"] = func(ex *Exec, fr *Frame, a []Value, s ssa.Instruction) Value { return ex.tt.BV(0, 64) }
 
@@ -406,6 +416,14 @@ func init() {
 	})
 	vx("IgnoreGo", func(ex *Exec, fr *Frame, a []Value, s ssa.Instruction) Value {
 		ex.W.ignoreGo = true
+		return nil
+	})
+	vx("SchedulerCapacity", func(ex *Exec, fr *Frame, a []Value, s ssa.Instruction) Value {
+		ex.W.schedCap = ex.concreteInt(a[0], "capacity")
+		return nil
+	})
+	vx("SchedulerRan", func(ex *Exec, fr *Frame, a []Value, s ssa.Instruction) Value {
+		ex.W.schedAdmitted = 0
 		return nil
 	})
 	vx("SchedulerMayRefuse", func(ex *Exec, fr *Frame, a []Value, s ssa.Instruction) Value {
